@@ -209,6 +209,21 @@ def judge_detection_against_frames(ctx: Ctx, ms: Any, frames: Sequence[Any], lab
             if g.semantic_label.label in n_gt:
                 n_gt[g.semantic_label.label] += 1
     info = dict(info or {}, n_frames=len(frames), n_gt=sum(n_gt.values()))
+    # the ground-truth counts belong to the ranking: every result of a frame is paired with one of the ground truths
+    # counted for that frame (otherwise recall is measured against a count its own TPs are not part of, and AP leaves [0,1])
+    for k, fr in enumerate(frames):
+        counted = {id(g) for g in fr.frame_ground_truth.objects}
+
+        def key(o):  # (an implementation may hold copies of the annotated objects: same object = same id, label and pose)
+            p = getattr(o.state, "position", None)
+            return (o.uuid, str(o.semantic_label.label), None if p is None else tuple(round(float(v), 9) for v in p), O.frame_of(o))
+
+        counted_keys = {key(g) for g in fr.frame_ground_truth.objects}
+        stray = [r for r in fr.object_results if r.ground_truth_object is not None and id(r.ground_truth_object) not in counted and key(r.ground_truth_object) not in counted_keys]
+        ctx.count(f"{tap}.result_gt_membership_checked")
+        if stray:
+            ctx.violation("C04/ranked_result_paired_with_ground_truth_missing_from_the_frames_count", dict(info, frame=k, n_stray=len(stray), example=dict(est=O.describe(stray[0].estimated_object), gt=O.describe(stray[0].ground_truth_object))), tap=tap)
+            break
     # the maps of a mode are computed with the thresholds configured for THAT mode (every configured list, in order)
     dc = getattr(ms, "detection_config", None)
     if dc is not None:
